@@ -72,7 +72,17 @@ func New(filename string, src io.Reader) (*Lexer, error) {
 		return nil, err
 	}
 
-	in, err := input.New(filename, bytes.NewReader(append(content, '\n')), bufferSize)
+	content = append(content, '\n')
+
+	// The reader loads a buffer half whenever its forward pointer arrives at the end of the other half,
+	// also when it arrives there again after a retraction, which would drop a whole half of the input.
+	// A half that holds the complete text (and the end marker after it) is never left.
+	size := bufferSize
+	if len(content) >= size {
+		size = len(content) + 1
+	}
+
+	in, err := input.New(filename, bytes.NewReader(content), size)
 	if err != nil {
 		return nil, err
 	}
